@@ -1,6 +1,7 @@
 #![feature(allocator_api)]
 //@unit pq
 //@props C20,C07,C01
+//@closed src=nexosim/src/util/priority_queue.rs impl=`impl<K: Copy \+ Ord, V> PriorityQueue<K, V>`
 //@verus --rlimit 50 --triggers-mode silent
 // Unit pq: util/priority_queue.rs whole file (Item::{cmp,partial_cmp,eq}, PriorityQueue::{new,insert,pull,peek}).
 // View: the entries in pull order. Contract: ascending key, FIFO among equal keys (C20, C07);
